@@ -44,6 +44,8 @@ fn dk_hash(d: &Option<DecodedKey>) -> u64 {
         None => 0,
         Some(DecodedKey::RawKey(k)) => 1000 + kidx(*k) as u64,
         Some(DecodedKey::Unicode(c)) => 100_000 + *c as u64,
+        #[allow(unreachable_patterns)]
+        Some(_) => 7,
     }
 }
 
